@@ -56,7 +56,47 @@ PickLayout == stage = 0 /\ stage' = 3 /\ scene' \in {WithHits(lay, NoHits) : lay
 PickScene == /\ stage = 1 /\ stage' = 2 /\ UNCHANGED tree
              /\ scene' \in {WithHits(lay, <<h1, h2, h3>>) : lay \in RandomSubset(ScenesPerTree, Layouts),
                               h1 \in RandomSubset(3, GeneHits), h2 \in RandomSubset(2, GeneHits), h3 \in RandomSubset(2, GeneHits)}
-Next == PickTree \/ PickLayout \/ PickScene
+(* one fixed tree and scene besides the sampled ones, so that the negative control does not depend on the draw
+   (a cds(minscore(a,50) and ...) group next to a neighbour that scores enough) *)
+WitnessTree ==
+[ p |-> "",
+  k |-> "cds",
+  neg |-> FALSE,
+  s |-> 0,
+  opts |-> <<>>,
+  args |->
+      << [ p |-> "",
+           k |-> "and",
+           neg |-> FALSE,
+           s |-> 0,
+           opts |-> <<>>,
+           args |->
+               << [ p |-> "a",
+                    k |-> "score",
+                    neg |-> FALSE,
+                    s |-> 50,
+                    opts |-> <<>>,
+                    args |-> <<>> ],
+                  [ p |-> "b",
+                    k |-> "id",
+                    neg |-> FALSE,
+                    s |-> 0,
+                    opts |-> <<>>,
+                    args |-> <<>> ] >> ] >> ]
+WitnessScene ==
+[ L |-> 12,
+  circ |-> TRUE,
+  cutoff |-> 3,
+  locs |->
+      << [parts |-> <<<<0, 2>>>>, strand |-> 1],
+         [parts |-> <<<<5, 6>>>>, strand |-> -1],
+         [parts |-> <<<<10, 11>>>>, strand |-> 1] >>,
+  hits |->
+      << <<[p |-> "a", s |-> 60]>>,
+         <<[p |-> "c", s |-> 70]>>,
+         <<[p |-> "b", s |-> 30], [p |-> "c", s |-> 70]>> >> ]
+PickWitness == stage = 0 /\ stage' = 2 /\ tree' = WitnessTree /\ scene' = WitnessScene
+Next == PickTree \/ PickLayout \/ PickScene \/ PickWitness
 Spec == Init /\ [][Next]_vars
 
 G == Genes(scene)
